@@ -6,6 +6,22 @@ verus! {
 struct UnifiedDiffHunkRange(usize, usize);
 //@@ end
 
+//@@ item src/udiff.rs :: ^impl UnifiedDiffHunkRange rw=R0
+impl UnifiedDiffHunkRange {
+    fn start(&self) -> (res: usize)
+    /*@*/     ensures res == self.0,
+    {
+        self.0
+    }
+
+    fn end(&self) -> (res: usize)
+    /*@*/     ensures res == self.1,
+    {
+        self.1
+    }
+}
+//@@ end
+
 //@@ item src/udiff.rs :: ^pub struct UnifiedHunkHeader
 pub struct UnifiedHunkHeader {
     old_range: UnifiedDiffHunkRange,
@@ -15,8 +31,17 @@ pub struct UnifiedHunkHeader {
 
 //@@ item src/udiff.rs :: ^impl UnifiedHunkHeader rw=R0
 impl UnifiedHunkHeader {
+    /*@*/ /// the four numbers of the header (the struct's fields are private)
+    /*@*/ pub closed spec fn sp_old_start(&self) -> usize { self.old_range.0 }
+    /*@*/ pub closed spec fn sp_old_end(&self) -> usize { self.old_range.1 }
+    /*@*/ pub closed spec fn sp_new_start(&self) -> usize { self.new_range.0 }
+    /*@*/ pub closed spec fn sp_new_end(&self) -> usize { self.new_range.1 }
     /// Creates a hunk header from a (non empty) slice of diff ops.
     pub fn new(ops: &[DiffOp]) -> (res: UnifiedHunkHeader)
+    /*@*/     requires ops@.len() > 0, op_wf(ops@[0]), op_wf(ops@[ops@.len() - 1]),
+    /*@*/     ensures
+    /*@*/         res.sp_old_start() == op_old_index(ops@[0]), res.sp_old_end() == op_old_end(ops@[ops@.len() - 1]),
+    /*@*/         res.sp_new_start() == op_new_index(ops@[0]), res.sp_new_end() == op_new_end(ops@[ops@.len() - 1]),
     {
         let first = ops[0];
         let last = ops[ops.len() - 1];
@@ -31,5 +56,111 @@ impl UnifiedHunkHeader {
     }
 }
 //@@ end
+
+// ---------------------------------------------------------------------------------------------
+// C05: the header's lengths count the lines of the hunk
+// ---------------------------------------------------------------------------------------------
+/// number of changes that carry an old index (Equal, Delete, the deletes of Replace) / a new index
+pub open spec fn count_old(s: Seq<ChangeSpec>) -> nat
+    decreases s.len()
+{
+    if s.len() == 0 { 0 } else { count_old(s.drop_last()) + (if s.last().old_index is Some { 1nat } else { 0nat }) }
+}
+
+pub open spec fn count_new(s: Seq<ChangeSpec>) -> nat
+    decreases s.len()
+{
+    if s.len() == 0 { 0 } else { count_new(s.drop_last()) + (if s.last().new_index is Some { 1nat } else { 0nat }) }
+}
+
+/// each op starts on both sides exactly where the previous one ended
+pub open spec fn contiguous(ops: Seq<DiffOp>) -> bool {
+    forall|i: int| 0 <= i < ops.len() - 1 ==> op_old_end(#[trigger] ops[i]) == op_old_index(ops[i + 1]) && op_new_end(ops[i]) == op_new_index(ops[i + 1])
+}
+
+pub open spec fn all_op_wf(ops: Seq<DiffOp>) -> bool {
+    forall|i: int| 0 <= i < ops.len() ==> op_wf(#[trigger] ops[i])
+}
+
+pub proof fn lemma_count_concat(a: Seq<ChangeSpec>, b: Seq<ChangeSpec>)
+    ensures count_old(a + b) == count_old(a) + count_old(b), count_new(a + b) == count_new(a) + count_new(b),
+    decreases b.len()
+{
+    if b.len() == 0 { assert(a + b =~= a); }
+    else {
+        lemma_count_concat(a, b.drop_last());
+        assert((a + b).drop_last() =~= a + b.drop_last());
+        assert((a + b).last() == b.last());
+    }
+}
+
+pub proof fn lemma_count_runs(o: usize, n: usize, src: usize, cnt: nat)
+    ensures
+        count_old(run_eq(o, n, src, cnt)) == cnt, count_new(run_eq(o, n, src, cnt)) == cnt,
+        count_old(run_del(o, src, cnt)) == cnt, count_new(run_del(o, src, cnt)) == 0,
+        count_old(run_ins(n, src, cnt)) == 0, count_new(run_ins(n, src, cnt)) == cnt,
+    decreases cnt
+{
+    if cnt > 0 {
+        lemma_count_runs(o, n, src, (cnt - 1) as nat);
+        assert(run_eq(o, n, src, cnt).drop_last() =~= run_eq(o, n, src, (cnt - 1) as nat));
+        assert(run_del(o, src, cnt).drop_last() =~= run_del(o, src, (cnt - 1) as nat));
+        assert(run_ins(n, src, cnt).drop_last() =~= run_ins(n, src, (cnt - 1) as nat));
+    }
+}
+
+/// an op's expansion has one old-indexed change per old item it consumes, one new-indexed per new item
+pub proof fn lemma_count_expand(op: DiffOp)
+    ensures count_old(expand(op)) == op_old_len(op), count_new(expand(op)) == op_new_len(op),
+{
+    match op {
+        DiffOp::Equal { old_index, new_index, len } => { lemma_count_runs(old_index, new_index, old_index, len as nat); }
+        DiffOp::Delete { old_index, old_len, new_index } => { lemma_count_runs(old_index, new_index, old_index, old_len as nat); }
+        DiffOp::Insert { old_index, new_index, new_len } => { lemma_count_runs(old_index, new_index, new_index, new_len as nat); }
+        DiffOp::Replace { old_index, old_len, new_index, new_len } => {
+            lemma_count_runs(old_index, new_index, old_index, old_len as nat);
+            lemma_count_runs(old_index, new_index, new_index, new_len as nat);
+            lemma_count_concat(run_del(old_index, old_index, old_len as nat), run_ins(new_index, new_index, new_len as nat));
+        }
+    }
+}
+
+/// C05: for a contiguous group of ops, the distance between the header's start and end on each side is the
+/// number of item-wise changes of the group that carry an index of that side (the `-`/` ` resp. `+`/` ` lines)
+pub proof fn lemma_hunk_counts(ops: Seq<DiffOp>)
+    requires ops.len() > 0, all_op_wf(ops), contiguous(ops),
+    ensures
+        op_old_end(ops.last()) - op_old_index(ops[0]) == count_old(expand_all(ops)),
+        op_new_end(ops.last()) - op_new_index(ops[0]) == count_new(expand_all(ops)),
+    decreases ops.len()
+{
+    let rest = ops.drop_first();
+    lemma_count_expand(ops[0]);
+    lemma_count_concat(expand(ops[0]), expand_all(rest));
+    if ops.len() == 1 {
+        assert(expand_all(rest) =~= Seq::<ChangeSpec>::empty());
+    } else {
+        assert(rest[0] == ops[1] && rest.last() == ops.last());
+        assert(all_op_wf(rest)) by { assert forall|i: int| 0 <= i < rest.len() implies op_wf(#[trigger] rest[i]) by { assert(rest[i] == ops[i + 1]); } }
+        assert(contiguous(rest)) by {
+            assert forall|i: int| 0 <= i < rest.len() - 1 implies op_old_end(#[trigger] rest[i]) == op_old_index(rest[i + 1]) && op_new_end(rest[i]) == op_new_index(rest[i + 1]) by {
+                assert(rest[i] == ops[i + 1] && rest[i + 1] == ops[i + 2]);
+            }
+        }
+        lemma_hunk_counts(rest);
+    }
+}
+
+/// the same, stated on the header built by `UnifiedHunkHeader::new`
+pub proof fn lemma_header_counts(h: UnifiedHunkHeader, ops: Seq<DiffOp>)
+    requires ops.len() > 0, all_op_wf(ops), contiguous(ops),
+        h.sp_old_start() == op_old_index(ops[0]), h.sp_old_end() == op_old_end(ops[ops.len() - 1]),
+        h.sp_new_start() == op_new_index(ops[0]), h.sp_new_end() == op_new_end(ops[ops.len() - 1]),
+    ensures
+        h.sp_old_end() - h.sp_old_start() == count_old(expand_all(ops)),
+        h.sp_new_end() - h.sp_new_start() == count_new(expand_all(ops)),
+{
+    lemma_hunk_counts(ops);
+}
 
 } // verus!
